@@ -185,7 +185,7 @@ def run_check(prop, tier, seed, replay=None):
                 bad_axioms[n] = extra
         for n, extra in bad_axioms.items():
             broken.append(('axioms', f'{n} depends on {extra}'))
-    hits = common.grep_forbidden()
+    hits = common.grep_forbidden(list(prop.lean_targets) + [prop.driver_target])
     for h in hits:
         broken.append(('forbidden construct', h))
     if tier == 'thorough' and ok and os.environ.get('VERIF_LEANCHECKER', '1') == '1':
@@ -320,8 +320,16 @@ def run_check(prop, tier, seed, replay=None):
     if not replay:
         with open(os.path.join(VERIF, 'evidence', prop.id + '.json'), 'w') as f:
             json.dump(evidence, f, indent=1)
+    try:
+        _report(prop, out_lines, tier, seed, n_obl, n_dis, results, disagreements, new_viol, known_hits, broken, evidence)
+    except BrokenPipeError:
+        pass
+    return exit_code
+
+
+def _report(prop, out_lines, tier, seed, n_obl, n_dis, results, disagreements, new_viol, known_hits, broken, evidence):
     for l in out_lines:
-        print(l)
+        print(l, flush=True)
     print(f'[{prop.id}] tier={tier} seed={seed} obligations={n_obl}/{n_dis} cases={len(results)} '
           f'disagreements={len(disagreements)} violations={len(new_viol)} known={sorted(known_hits)} '
           f'broken={len(broken)} wall={evidence["wall_s"]}s')
@@ -331,4 +339,3 @@ def run_check(prop, tier, seed, replay=None):
         print('  disagreement:', json.dumps(common.jsonable({'case': c, 'real': r, 'model': m}))[:600])
     for (c, r, v) in new_viol[:5]:
         print('  violation:', v.get('kind'), '-', str(v.get('detail'))[:300])
-    return exit_code
